@@ -83,6 +83,10 @@ C10Part(d) ==
                                             first |-> f, grp |-> Part]))
        /\ AllConfs(LAMBDA ki, li, f : Emit([op |-> "prop.ci", fe |-> "ci", n |-> n, k |-> k, conf |-> Conf(ki, li), li |-> li,
                                             first |-> f, grp |-> Part]))
+  \* the success-ratio form with rates j / 16 whose product with the population is not a whole number (18.75, 31.25, 68.75)
+  /\ \A j \in {3, 5, 11} :
+       AllConfs(LAMBDA ki, li, f : Emit([op |-> "prop.ci", fe |-> "ci_wilson_ratio_raw", n |-> 100, k |-> ((100 * j) + 8) \div 16,
+                                         ratio |-> [n |-> j, p |-> -4], conf |-> Conf(ki, li), li |-> li, first |-> f, grp |-> Part]))
   /\ \A n \in 4..(IF Thorough THEN 60 ELSE 40) : \A qa \in {4, 11, 16, 27} :
        AllConfs(LAMBDA ki, li, f : Emit([op |-> "quant.ranks", n |-> n, q |-> [n |-> qa, p |-> -5], qa |-> qa,
                                          conf |-> Conf(ki, li), li |-> li, first |-> f, grp |-> Part]))
